@@ -22,7 +22,7 @@ def _model_one(item):
     """positions of the block tokens against the opener positions of the MdBlocks nodes (same structure, no tabs)"""
     from .. import canon
     text, rec = item
-    if "\t" in text:
+    if "\t" in text or "[" in text:                 # link reference definitions move / remove paragraphs: positions not compared
         return None
     r = impl.parse(text, timeout=3)
     if isinstance(r, tuple) and r and r[0] == "EXC":
